@@ -217,3 +217,9 @@ Proof.
         -- split; [discriminate|]. intros [[H _]|[_ H]]; [lia|contradiction].
       * split; [discriminate|]. intros [[H _]|[H _]]; lia.
 Qed.
+
+Lemma wg_alloc_bounded16 p : (wg_alloc p <= 16 * Z.to_N layer4_MaxMatchingBytes)%N.
+Proof.
+  pose proof (wg_alloc_bounded p) as H. change (N.of_nat (wg_init_total + 1)) with 149%N in H.
+  change (16 * Z.to_N layer4_MaxMatchingBytes)%N with 131072%N. lia.
+Qed.
